@@ -25,7 +25,7 @@
 //	hasTypedMap        Has has a kind list `reflect.Ptr, reflect.Slice, reflect.Struct, reflect.Array:` without Map
 //	hasTypedDescent    Has does not call `reflectGetWild(tv)` in its descent
 //	walkTypedArray     Slice.Walk or Filter.Walk does not accept reflect.Array
-//	nestedFilterRoot   evalWithRoot evaluates a path operand with x.Get(dv) / x.FirstFound(dv) (Get's argument becomes the root of nested filters)
+//	nestedFilterRoot   evalWithRoot does not evaluate a path operand through `x.nestedRoot(root).Get(dv)` (then Get's argument becomes the root of nested filters)
 //	locFilterRootNil   Filter.locate calls `f.evalWithRoot([]any{}, data, nil)`
 //	walkFilterRootSelf Filter.Walk tests with `f.Match(v)` (Match passes the element as the root)
 //	filterRootIsArgument (no flag; expected true) Get, FirstFound, Has, GetNodes and FirstNode hand their own argument to a filter as its root
@@ -168,10 +168,13 @@ func extractJpath(repo, out string) ([]string, error) {
 	facts["hasTypedMap"] = has(hasF, "casereflect.Ptr,reflect.Slice,reflect.Struct,reflect.Array:")
 	facts["hasTypedDescent"] = !has(hasF, "got:=reflectGetWild(tv)")
 	facts["walkTypedArray"] = !(has(fn{"slice.go", "Slice", "Walk"}, "rv.Kind()==reflect.Array") && has(fwalk, "casereflect.Slice,reflect.Array:"))
-	facts["nestedFilterRoot"] = has(ewr, "x.Get(dv)") || has(ewr, "x.FirstFound(dv)")
+	facts["nestedFilterRoot"] = !has(ewr, "x.nestedRoot(root).Get(dv)")
 	facts["locFilterRootNil"] = has(fn{"filter.go", "Filter", "locate"}, "f.evalWithRoot([]any{},data,nil)")
 	facts["walkFilterRootSelf"] = has(fwalk, "f.Match(v)")
-	facts["filterRootIsArgument"] = has(fn{"get.go", "Expr", "Get"}, "tf.evalWithRoot(stack,prev,data)") && has(first, "tf.evalWithRoot(stack,prev,data)") &&
+	// (Get and FirstFound ask the filter first: a filter of a script's path operand carries the document, 22c4424)
+	rootOr := fn{"filter.go", "Filter", "rootOr"}
+	facts["filterRootIsArgument"] = has(fn{"get.go", "Expr", "Get"}, "tf.evalWithRoot(stack,prev,tf.rootOr(data))") && has(first, "tf.evalWithRoot(stack,prev,tf.rootOr(data))") &&
+		has(rootOr, "iff.rooted{returnf.root}") && has(rootOr, "returndata") &&
 		has(hasF, "tf.evalWithRoot(stack,prev,data)") && has(fn{"node.go", "Expr", "GetNodes"}, "tf.evalWithRoot(stack,prev,n)") &&
 		has(fn{"node.go", "Expr", "FirstNode"}, "tf.evalWithRoot(stack,prev,n)")
 	if firstErr != nil {
